@@ -189,14 +189,23 @@ class C07(Prop):
                   "C07_uploaders_absorbing); Control::wrap_and_sort is the deb822-level reformatting with control order and the control formatter "
                   "(C07_control). The shipped code "
                   "is refuted (C07_shipped_refuted, C07_repairs_needed, C07_shipped_witnesses, C07_moved_paragraph, C07_formatter_lines, "
-                  "C07_build_conflicts_arch). PARTIAL: documents that are error-free but outside Grammar.wf_doc (CR line ends, blank or comment lines "
-                  "inside a value, whitespace before the colon), formatters with unshaped output, the relations branch of the control formatter (a "
-                  "parameter) and Source/Binary::wrap_and_sort are covered by the correspondence streams and the oracle only.")
+                  "C07_build_conflicts_arch). The control wrappers WITHOUT a parameter (C07_control_real, C07_source_binary, C07_control_field, "
+                  "C07_relation_formatter): format_field with C13's model of parse_relaxed + Relations::wrap_and_sort in it; on every control file whose "
+                  "relationship fields are well-formed fields of C10's grammar in C13's safe domain (Uploaders without empty piece, other fields "
+                  "arbitrary) Control/Source/Binary::wrap_and_sort satisfy every clause, idempotence through C13_idem. Idempotence for ANY formatter that "
+                  "absorbs the re-layout on the document (C07_formatter_idem_absorbs; the premise is needed: C07_formatter_idem_needs_premise). Outside "
+                  "the abstract grammar: every document the strict reader returns is a token document (C07_error_free_is_token_doc) and on every such "
+                  "document, no formatter: no panic, comment lines stay in front of the same field/paragraph, fields and paragraphs reported are those of "
+                  "the input in the stable sorted order, VALUE and COMMENT texts kept, INDENT exactly as requested, second application returns the same "
+                  "tree (C07_tokens_entry, C07_tokens_rebuild_value, C07_tokens_paragraph, C07_tokens_document, C07_error_free, C07_error_free_paragraph). "
+                  "PARTIAL (streams + oracle only): for error-free documents outside Grammar.wf_doc the clause 'the printed result parses strictly and "
+                  "re-reads to the reported content' (needs C03 for those layouts); formatters on such documents and formatters with unshaped output; "
+                  "relationship fields outside C13's domain; see docs/cones/C07.md 'What remains'.")
     level_note = ("Model: Entry/Paragraph/Deb822::wrap_and_sort, rebuild_value, inject (src/lossless.rs), lex_inline (src/lex.rs), format_field and "
-                  "Control/Source/Binary::wrap_and_sort (debian-control/src/lossless/control.rs; the relations branch is a parameter fed with the "
-                  "implementation's own values). `./check C07` evaluates the model of the REPAIRED code: on the unchanged /repo it reports the defects "
-                  "(VIOLATION) until proposed_fixes/C07-*.patch are committed; VERIF_C07_MODEL=shipped evaluates the model of the shipped code "
-                  "(0 correspondence differences on the unchanged /repo).")
+                  "Control/Source/Binary::wrap_and_sort (debian-control/src/lossless/control.rs), the relations branch being C13's RelWrap.ctl_rel. "
+                  "The six repairs of this cone are in /repo (6a001af c25b7d1 a95d981 88b9361 101ca2e 5a3c57b): `./check C07` compares the model of "
+                  "the repaired code (variant `fixed`) with /repo; VERIF_C07_MODEL=shipped (or six 0/1 flags) evaluates the code before the repairs; "
+                  "VERIF_C07_REL=table makes the control-wrap model take the relations formatter's values from the case instead of C13's model.")
     rule = ("hand-written edge cases (one per clause/defect) + /repo test literals + generated Grammar.doc inhabitants (every layout knob, values "
             "with ',' ';' '#') + exotic error-free texts (CR, blank/comment lines in values, blanks before ':') + control-file documents "
             "(relationship fields, Uploaders, misspelt/unknown names, unparsable relations) + mutated/malformed texts, each x sampled settings from "
@@ -210,11 +219,11 @@ class C07(Prop):
                "rowan GreenNodeBuilder / SyntaxNode::children_with_tokens / clone_for_update / splice_children modelled as lists of children; inject = identity",
                "Vec::sort_by modelled as a stable insertion sort (equal to any stable sort for comparators that are total preorders)",
                "str::split_inclusive, str::trim, char::is_whitespace, str::split(','), join modelled (own definitions, validated by the streams)",
-               "Relations::from_str(..).wrap_and_sort().to_string() is a parameter of the model: the control-wrap stream feeds it the implementation's own values (harness helper control-fmt-table)",
+               "the relations branch of format_field is C13's model RelWrap.ctl_rel (coq/model/RelWrap.v, tied to the code by C13's streams and by control-wrap); the table computed by the harness helper control-fmt-table is used by the oracle only",
                "extraction (ExtrOcamlBasic only), OCaml runner, Rust harness, Python driver/generators/oracle"]
     assumptions = ["inputs are valid UTF-8 (Rust &str)", "field names shorter than 4 GiB (the `as u32` cast of FieldNameLength is not modelled)",
                    "comparators and formatters passed by the caller return (do not panic) and comparators give consistent answers (Vec::sort_by's contract)",
-                   "the theorems are about the repaired code (six patches in proposed_fixes/, pending commit)"]
+                   "relationship fields of control files: well-formed fields of C10's grammar in C13's safe domain (no digit run above 2^31-1 in a version)"]
     case_ms = 6000
 
     def streams(self, tier, rng):
